@@ -345,3 +345,35 @@ def format_hook(ev_, fmt, *args):
 
 
 format_hook.wants_ev = True
+
+
+
+def object_state(prog, cls, ctor_types, args, steps=(), hooks=None, inline=None):
+    """The private state a sequence of public operations leaves in an object: the constructor of `cls` whose parameter
+    types are `ctor_types` folded (member initialisers included) on `args`, then every step (method name, args) on the same
+    object. Returns the environment of the object's members. Rules that build their models this way do not name private
+    members: a renamed member or a changed representation of the state is followed automatically."""
+    from cpv.ceval import Evaluator
+    ctors = [f for f in prog.methods_of(cls) if f.kind == "ctor" and [q["ct"] for q in f.params] == list(ctor_types)]
+    if len(ctors) != 1:
+        raise AnalysisBroken("constructor %s(%s) not found" % (cls, ", ".join(ctor_types)))
+    fields = {fl["name"] for fl in prog.records.get(cls, {}).get("fields", [])}
+    state = {}
+    seq = [(ctors[0], args)]
+    for name, a_ in steps:
+        ms = [f for f in prog.methods_of(cls) if f.name == name and len(f.params) == len(a_)]
+        if len(ms) != 1:
+            raise AnalysisBroken("%s::%s with %d parameters not found" % (cls, name, len(a_)))
+        seq.append((ms[0], a_))
+    for f, a_ in seq:
+        env = dict(state)
+        env.update({q["name"]: v for q, v in zip(f.params, a_)})
+        ev = Evaluator(prog, f, env=env, calls=dict(hooks or string_hooks()))
+        ev.objects = True
+        ev.pass_object = True
+        if inline:
+            ev.inline = inline
+        ev.run_blocks(f.entry, max_steps=2000)
+        root = lambda k: k.split(".")[0].split("[")[0]
+        state = {k: v for k, v in ev.env.items() if root(k) in fields}
+    return state
